@@ -644,6 +644,11 @@ fn hostile_mode(inputs: &[Value], _seed: u64, si: usize, sn: usize, out: &mut Tr
                 v.extend_from_slice(b":1\r\n");
             }
             v
+        } else if let Some(rep) = inp.get("repeat") {
+            // a flood: one unit repeated (line breaks, single bytes, the shortest frames)
+            let unit = jb(&rep["unit"]);
+            let k = rep["count"].as_u64().unwrap_or(1) as usize;
+            unit.iter().copied().cycle().take(unit.len() * k).collect()
         } else {
             jb(&inp["stream"])
         };
